@@ -476,8 +476,9 @@ class Interp:
 
     def __init__(self, prog, inline=None, max_paths=6000, max_depth=5,
                  fork_boolop=False, exc_edges=True, env=None, self_cls=None,
-                 unroll_const=False):
+                 unroll_const=False, no_inline=()):
         self.prog = prog
+        no_inline = frozenset(no_inline)   # analysed as units (summaries)
         self.self_cls = self_cls   # ClassInfo 'self' is analysed as
         self.unroll_const = unroll_const  # unroll loops over constant seqs
         user_inline = inline or (lambda qn, depth: False)
@@ -487,6 +488,8 @@ class Interp:
             # functions the rules know by name are analysed as units; a
             # function that did not exist when the rules were written (a
             # helper extracted by a refactoring) is transparent
+            if qn in no_inline:
+                return False
             return user_inline(qn, depth) or (
                 known is not None and qn not in known and depth < 4 and
                 not prog.is_renamed_closure(qn))
@@ -2241,7 +2244,9 @@ class Interp:
                 items = [from_py(x) for x in seq]
             except TypeError:
                 return None
-        if not (0 < len(items) <= 16):
+        # (a table computed from a constant range is cheap whatever its size)
+        if not (0 < len(items) <= (256 if all(is_const(x) for x in items)
+                                   else 16)):
             return None
         g = n.generators[0]
         rows = []
@@ -2367,8 +2372,23 @@ class Interp:
                     continue
                 na = len(n.args)
                 args = tuple(vals[:na])
-                kwargs = tuple((k.arg if k.arg is not None else '**', v)
-                               for k, v in zip(n.keywords, vals[na:]))
+                kwargs = []
+                for k, v in zip(n.keywords, vals[na:]):
+                    if k.arg is None:
+                        # **<constant mapping> (a dict display, a module-level
+                        # MappingProxyType of one): its items are keywords
+                        d = v
+                        if kind(d) == 'call' and d[1] in (
+                                'types.MappingProxyType', 'dict') and \
+                                len(d[3]) == 1 and not d[4]:
+                            d = d[3][0]
+                        if kind(d) == 'dict' and all(
+                                is_const(a) and isinstance(a[1], str)
+                                for a, _ in d[1]):
+                            kwargs.extend((a[1], b) for a, b in d[1])
+                            continue
+                    kwargs.append((k.arg if k.arg is not None else '**', v))
+                kwargs = tuple(kwargs)
                 out.extend(self.call(n, fn, args, kwargs, s2))
         return out
 
@@ -2394,6 +2414,29 @@ class Interp:
                     and kind(fn[3][0]) in ('func', 'funcref', 'bound'):
                 fn = fn[3][0]
                 target = self.call_target(fn)
+        if kind(fn) == 'call' and fn[1] in ('collections.namedtuple',
+                                             'typing.NamedTuple') and \
+                len(fn[3]) >= 2 and not any(kind(a) == 'splice'
+                                            for a in args):
+            # X = namedtuple('X', 'a b c'); X(1, 2, c=3) is the tuple
+            # (1, 2, 3) (field access by name is not modelled)
+            okf, fields = try_py(fn[3][1])
+            if okf:
+                if isinstance(fields, str):
+                    fields = fields.replace(',', ' ').split()
+                else:
+                    fields = [f[0] if isinstance(f, (tuple, list)) else f
+                              for f in fields]
+                kw = dict(kwargs)
+                vals = list(args)
+                good = len(vals) <= len(fields) and '**' not in kw
+                for f in fields[len(vals):]:
+                    if f in kw:
+                        vals.append(kw.pop(f))
+                    else:
+                        good = False
+                if good and not kw:
+                    return [(st, ('tuple', tuple(vals)), None)]
         if kind(fn) == 'attr' and kind(fn[1]) == 'call' and \
                 fn[1][1] == 'struct.Struct' and len(fn[1][3]) == 1 and \
                 fn[2] in ('pack', 'unpack', 'unpack_from', 'pack_into',
@@ -2649,13 +2692,23 @@ class Interp:
                     return [(st, args[1] if len(args) > 1 else NONE, None)]
             if meth == 'get' and args and not is_const(args[0]) and \
                     0 < len(recv[1]) <= 6 and _is_closed(recv) and \
-                    all(is_const(v) for _, v in recv[1]):
+                    all(is_const(v) or kind(v) == 'func'
+                        for _, v in recv[1]):
                 # a small constant table looked up with an unknown key: one
                 # outcome per entry (key == entry key) and the default
                 out = []
                 for a, v in recv[1]:
                     s3 = st.copy()
-                    self.assume(s3, ('cmp', '==', args[0], a), True)
+                    oka, pa = try_py(a)
+                    if kind(args[0]) == 'tuple' and oka and \
+                            isinstance(pa, tuple) and \
+                            len(pa) == len(args[0][1]):
+                        # (x, y) == ('a', 'b'): x == 'a' and y == 'b'
+                        for t_, k_ in zip(args[0][1], pa):
+                            self.assume(s3, ('cmp', '==', t_, from_py(k_)),
+                                        True)
+                    else:
+                        self.assume(s3, ('cmp', '==', args[0], a), True)
                     out.append((s3, v, None))
                     self._count()
                 s4 = st.copy()
@@ -2832,7 +2885,31 @@ def subst_fold(t, mapping):
         if k == 'binop':
             return Interp.binop(it, x[1], go(x[2]), go(x[3]))
         if k == 'cmp':
-            return Interp.compare(it, x[1], go(x[2]), go(x[3]))
+            a_, b_ = go(x[2]), go(x[3])
+            if kind(a_) == 'builtin' and kind(b_) == 'builtin' and \
+                    x[1] in ('is', 'is not', '==', '!='):
+                # type(<constant>) is str
+                return C((a_[1] == b_[1]) == (x[1] in ('is', '==')))
+            return Interp.compare(it, x[1], a_, b_)
+        if k == 'call' and kind(x[2]) == 'builtin' and x[2][1] == 'type' \
+                and len(x[3]) == 1 and not x[4]:
+            v = go(x[3][0])
+            if is_const(v) and type(v[1]) in (str, bytes, int, bool, float):
+                return ('builtin', type(v[1]).__name__)
+            return ('call', x[1], x[2], (v,), x[4], x[5])
+        if k == 'call' and kind(x[2]) == 'builtin' and \
+                x[2][1] == 'isinstance' and len(x[3]) == 2 and not x[4]:
+            v, t_ = go(x[3][0]), go(x[3][1])
+            ts = [t_] if kind(t_) == 'builtin' else (
+                list(t_[1]) if kind(t_) == 'tuple' else [])
+            if is_const(v) and ts and all(
+                    kind(y) == 'builtin' and y[1] in (
+                        'str', 'bytes', 'int', 'bool', 'float', 'list',
+                        'tuple', 'dict', 'bytearray') for y in ts):
+                import builtins as _b
+                return C(isinstance(v[1], tuple(getattr(_b, y[1])
+                                                for y in ts)))
+            return ('call', x[1], x[2], (v, t_), x[4], x[5])
         if k == 'unop':
             v = go(x[2])
             if x[1] == 'not':
